@@ -428,8 +428,10 @@ def get_mean_var_from_ecdf(q, p):
         >>> mean, var = get_mean_var_from_ecdf(q, p)
     """
 
-    # Step 1: Recover PMF
+    # Step 1: Recover PMF (the levels need not reach 1, e.g. Params.p_values stop at 0.999)
     pmf = [p[0]] + [p[i] - p[i - 1] for i in range(1, len(p))]
+    total = sum(pmf)
+    pmf = [m / total for m in pmf]
 
     # Step 2: Compute Mean
     mean = sum(x * p for x, p in zip(q, pmf))
